@@ -60,6 +60,12 @@ SCHEMAS = {
                      pageSize=4, uniq=0, autoSelect=1, maxCodeLength=3, autoClear="max_length"),
     "vs_multi": dict(procs=["speller", "selector", "navigator", "fluid_editor"], alphabet="abcd", delimiters="'",
                      pageSize=5, uniq=1, selectKeys="jkl;m", pageDownCycle=1),
+    # a spelling key outside a-z and no speller/initials: the default for the initials is the configured alphabet
+    # (double-pinyin style `;`), in the speller as well as in the abc segmentor
+    "vs_semi": dict(procs=["speller", "selector", "navigator", "express_editor"], alphabet="ab;", delimiters="'",
+                    pageSize=3, uniq=1),
+    "vs_semif": dict(procs=["speller", "selector", "navigator", "fluid_editor"], alphabet="ab;", delimiters="'",
+                     pageSize=3, uniq=0),
     # speller options the four above leave at their defaults (tools/model_coverage.py showed the code behind them unreached):
     # auto_clear: auto with auto_select and no code-length bound; initials / finals, space as a delimiter handled by the
     # speller (use_space), auto_clear: manual with a code-length bound
@@ -92,6 +98,21 @@ SCHEMAS = {
                           full={",": "，", ".": {"commit": "．"}, "/": ["／", "÷"], '"': {"pair": ["＂", "“"]}, ";": "；",
                                 " ": {"commit": "　"}, "$": ["＄", "￥", "$"], "-": {"commit": "－"}, "%": ["％", "‰"],
                                 "#": ["＃", "♯", "№"]})),
+    # auto_select without a code-length bound TOGETHER with the punctuator: Speller::AutoSelectPreviousMatch pushes back the
+    # segment it saved before the key without comparing positions; after `/` (a list of alternatives: the segment stays open
+    # with a menu) and a letter without candidates the punctuation segment is there twice (Props/C01.lean
+    # geometry_fails_prev_match_punct; DESIGN.md §8.6).  Model and code agree on it; the geometric monitor checks the bounds
+    # only on these two (`dupSegments`).
+    "vs_autop": dict(procs=["speller", "punctuator", "selector", "navigator", "fluid_editor"], alphabet="abc", delimiters="'",
+                     pageSize=3, uniq=0, autoSelect=1, dupSegments=1, punct=dict(
+                         use_space=0,
+                         half={"/": ["、", "/"], ",": "，", ";": ["；", ";", "︔"], ".": {"commit": "。"}},
+                         full={"/": ["／", "÷"], ",": "，"})),
+    "vs_autopx": dict(procs=["speller", "punctuator", "selector", "navigator", "express_editor"], alphabet="abc", delimiters="'",
+                      pageSize=3, uniq=0, autoSelect=1, dupSegments=1, punct=dict(
+                          use_space=0,
+                          half={"/": ["、", "/"], ",": "，", ";": ["；", ";", "︔"], ".": {"commit": "。"}},
+                          full={"/": ["／", "÷"], ",": "，"})),
     # the key binder inside the model, first in the processor list as in the stock schemas.  Bindings cover every `when` x every
     # kind of action: the stock Emacs / Tab / paging set (minus, equal, comma, period under `paging` / `has_menu`: with the
     # punctuator behind them, and ReinterpretPagingKey's period-then-letter case), option toggles incl. full_shape (Shift+space),
@@ -651,6 +672,12 @@ def build(flavour="san"):
 
 
 def run_impl(exe, ws, script_path, timeout=1200):
+    if os.path.exists(os.path.join(ws, ".fresh_userdb")):
+        # a workspace with a live user dictionary: every run starts from an empty one, so that a history (and what is
+        # shrunk from it) carries everything it depends on
+        import glob
+        for p in glob.glob(os.path.join(ws, "*.userdb*")):
+            shutil.rmtree(p, ignore_errors=True) if os.path.isdir(p) else os.unlink(p)
     rc, out = vlib.sh([exe, ws, script_path], env=vlib.SAN_ENV, timeout=timeout)
     return rc, out
 
@@ -784,7 +811,7 @@ def cand_ends(o):
     return None
 
 
-def seg_geometry(o):
+def seg_geometry(o, contiguous=True):
     """C01's geometric invariant, checked on the implementation's own segment list (printed by the harness from the private
     headers, `segs=<|composition input|>:start-end-length-status-index-tags|…`): the first segment starts at 0, each starts
     where the previous one ends, start <= end <= |composition input| <= |input|.  This is what makes every
@@ -803,7 +830,7 @@ def seg_geometry(o):
         return "composition-input-longer-than-input"
     pos = 0
     for k, (a, b) in enumerate(segs):
-        if a != pos:
+        if a != pos and contiguous:
             return "segments-not-contiguous" if k else "first-segment-not-at-0"
         if b < a:
             return "segment-end-before-start"
@@ -1114,7 +1141,7 @@ def stock_monitor_check(c, pid, monitor, histories, exe, ws, what_prop, sid="vs_
             r = eval_impl(c, exe, ws, sid, small, monitor)
             c.report("%s:stock:%s:%s" % (pid, op_kind(small[-1]), clause),
                      "%s violated (%s) after %d calls on the stock-component schema" % (what_prop, clause, len(small)),
-                     {"kind": "impl-violation", "schema": sid, "workspace": "stock-like (c01_common.make_full_workspace)", "table": [],
+                     {"kind": "impl-violation", "schema": sid, "workspace": "stock-like (c01_common.make_full_workspace / make_table_workspace)", "table": [],
                       "ops": small, "observation": r["first_viol"][3] if r["first_viol"] else None, "clause": clause},
                      no_input=monitor_no_input)
     return st
@@ -1143,6 +1170,12 @@ def replay_history(c, r, monitor):
         from checks import c01_common as c1
         fws = c1.make_full_workspace(os.path.join(c.work, "fws"), user_dict=False)
         res = eval_impl(c, exe, fws, "vs_full", r["ops"], monitor, "rp")
+        print("rc=%d first_viol=%s" % (res["rc"], res["first_viol"]))
+        return 1 if (res["rc"] != 0 or res["first_viol"]) else 0
+    if r.get("schema") == "vs_cjfull":
+        from checks import c01_common as c1
+        tws = c1.make_table_workspace(os.path.join(c.work, "tws"))
+        res = eval_impl(c, exe, tws, "vs_cjfull", r["ops"], monitor, "rp")
         print("rc=%d first_viol=%s" % (res["rc"], res["first_viol"]))
         return 1 if (res["rc"] != 0 or res["first_viol"]) else 0
     rows = [tuple(x) for x in r["table"]]
@@ -1223,6 +1256,24 @@ def earlier_match_grid(rows_for, hs, schemas=("vs_auto", "vs_autof")):
             for n in (3, 4):
                 for w in itertools.product("abc", repeat=n):
                     hs.append((sid, ["key %d 0" % ord(ch) for ch in w] + ["key %d 0" % XK["space"], "read_commit"], tid))
+
+
+def prev_match_punct_grid(rows_for, hs, schemas=("vs_autop", "vs_autopx")):
+    """directed: auto_select without a code-length bound beside the punctuator.  Every word of 2-3 keys over {a, b, c, /, ;, comma}
+    on two tables (`a`, `c` without candidates / `ab` only): a punctuation segment with alternatives stays open with a menu, so
+    the letter after it sends AutoSelectPreviousMatch down its reuse branch with a saved segment that was NOT extended in place."""
+    import itertools
+    tables = {"q1": [("b", "吧", "", "")], "q2": [("ab", "P", "", ""), ("ab", "U", "", "")]}
+    keys = [97, 98, 99, 47, 59, 44]
+    for sid in schemas:
+        for tn, rows in tables.items():
+            tid = "%s_%s" % (tn, sid)
+            rows_for[tid] = rows
+            for n in (2, 3):
+                for w in itertools.product(keys, repeat=n):
+                    if not any(k in (47, 59) for k in w[:-1]):
+                        continue
+                    hs.append((sid, ["key %d 0" % k for k in w] + ["commit", "read_commit"], tid))
 
 
 def punct_grid(rows_for, hs):
@@ -1367,6 +1418,7 @@ def standard_histories(c, n_hist, n_ops, profile="mixed", schemas=None):
     reopen_grid(rows_for, hs)
     earlier_match_grid(rows_for, hs)
     punct_grid(rows_for, hs)
+    prev_match_punct_grid(rows_for, hs)
     kb_grid(rows_for, hs, c.rng if c.tier == "quick" else None)
     ac_grid(rows_for, hs, c.rng if c.tier == "quick" else None)
     schemas = schemas or list(SCHEMAS)
